@@ -15,7 +15,10 @@ import (
 // Trace_IOStreams to validate.  The driver knows nothing about the expected
 // behaviour; it only keeps inside the domain the specification speaks about
 // (one name is used in one direction per run, the operand comes last, no
-// output to "-" / /dev/std* under NoFileWrites).
+// output to "-" / /dev/std* under NoFileWrites, no second print to the
+// command that never reads once something has been flushed to it).
+// Part of the traces are SESSIONS: two or three runs on one Interpreter, each
+// Execute with a configuration of its own (config events with cont = true).
 
 func actMap(a Act) map[string]any {
 	return map[string]any{"op": a.Op, "name": a.Name, "cls": a.Cls, "dest": a.Dest, "mode": a.Mode, "form": a.Form}
@@ -23,11 +26,17 @@ func actMap(a Act) map[string]any {
 
 func pick(r *rand.Rand, xs ...string) string { return xs[r.Intn(len(xs))] }
 
-func genRun(r *rand.Rand, sandbox bool) *Case {
+func genRun(r *rand.Rand, sandbox bool, first bool) *Case {
 	c := &Case{Fam: "trace"}
 	c.Cfg.FailAt = -1
 	c.Cfg.Custom = true
+	c.Cfg.WKind = "plain"
+	c.Cfg.OMode = "default"
+	if !sandbox {
+		c.Cfg.OMode = pick(r, "default", "default", "csv", "tsv")
+	}
 	if sandbox {
+		c.Cfg.Custom = r.Intn(4) > 0
 		c.Cfg.NE, c.Cfg.NW, c.Cfg.NR = r.Intn(3) == 0, r.Intn(3) == 0, r.Intn(3) == 0
 		if r.Intn(4) == 0 {
 			c.Cfg.Stdin = []hx.BS{hx.FromBytes([]byte("s"))}
@@ -38,7 +47,7 @@ func genRun(r *rand.Rand, sandbox bool) *Case {
 	}
 	c.Cfg.Pre = []string{}
 	for _, n := range FileNames {
-		if r.Intn(2) == 0 {
+		if first && r.Intn(2) == 0 {
 			c.Cfg.Pre = append(c.Cfg.Pre, n)
 		}
 	}
@@ -46,6 +55,9 @@ func genRun(r *rand.Rand, sandbox bool) *Case {
 	dir := map[string]string{}
 	for _, n := range []string{"f1", "f2", "f3", "cat", "cat3"} {
 		dir[n] = pick(r, "out", "in")
+	}
+	if !sandbox && r.Intn(3) == 0 {
+		dir["exit3"] = "out"
 	}
 	outFiles, inFiles, outCmds, inCmds := []string{}, []string{}, []string{}, []string{}
 	for _, n := range FileNames {
@@ -62,6 +74,15 @@ func genRun(r *rand.Rand, sandbox bool) *Case {
 			inCmds = append(inCmds, n)
 		}
 	}
+	if dir["exit3"] == "out" {
+		outCmds = append(outCmds, "exit3")
+	}
+	sysCmds := []string{"cat", "cat3"}
+	if !sandbox {
+		sysCmds = []string{"cat", "cat3", "showf1", "showf1"}
+	}
+	// exit3: has something been flushed into the closed pipe (after which the domain has no further print to it)?
+	exit3Open, exit3Dirty, exit3Broken := false, false, false
 	execBudget := 0
 	if r.Intn(2) == 0 {
 		execBudget = 1 + r.Intn(2)
@@ -82,11 +103,20 @@ func genRun(r *rand.Rand, sandbox bool) *Case {
 		}
 		return "print"
 	}
+	stdoutForm := func() string {
+		switch r.Intn(6) {
+		case 0:
+			return "printf"
+		case 1, 2:
+			return "print2"
+		}
+		return "print"
+	}
 	for len(c.Acts) < n {
 		var a Act
 		switch k := r.Intn(100); {
 		case k < 20:
-			a = Act{Op: "print", Dest: "stdout", Mode: "none", Form: form(), Cls: "lit"}
+			a = Act{Op: "print", Dest: "stdout", Mode: "none", Form: stdoutForm(), Cls: "lit"}
 		case k < 40:
 			if len(outFiles) == 0 {
 				continue
@@ -102,16 +132,37 @@ func genRun(r *rand.Rand, sandbox bool) *Case {
 				continue
 			}
 			a = Act{Op: "print", Dest: "cmd", Name: pick(r, outCmds...), Mode: "pipe", Form: form(), Cls: cls()}
+			if a.Name == "exit3" {
+				if exit3Broken {
+					continue
+				}
+				exit3Open, exit3Dirty = true, true
+			}
 		case k < 68:
-			a = Act{Op: "close", Name: pick(r, "f1", "f2", "f3", "cat", "cat3"), Cls: cls()}
+			a = Act{Op: "close", Name: pick(r, "f1", "f2", "f3", "cat", "cat3", "exit3"), Cls: cls()}
+			if a.Name == "exit3" {
+				if dir["exit3"] != "out" {
+					continue
+				}
+				exit3Open, exit3Dirty, exit3Broken = false, false, false
+			}
 		case k < 76:
 			a = Act{Op: "fflush", Name: pick(r, "", "", "f1", "f2", "cat", "cat3"), Cls: "lit"}
+			if dir["exit3"] == "out" && r.Intn(4) == 0 {
+				a.Name = "exit3"
+			}
+			if (a.Name == "" || a.Name == "exit3") && exit3Open && exit3Dirty {
+				exit3Dirty, exit3Broken = false, true
+			}
 		case k < 80:
 			if execBudget == 0 {
 				continue
 			}
-			a = Act{Op: "system", Name: pick(r, "cat", "cat3"), Cls: cls()}
+			a = Act{Op: "system", Name: pick(r, sysCmds...), Cls: cls()}
 			execBudget--
+			if exit3Open && exit3Dirty {
+				exit3Dirty, exit3Broken = false, true // system() flushes every stream
+			}
 		case k < 94:
 			nm := "-"
 			if len(inFiles) > 0 && r.Intn(5) > 0 {
@@ -166,12 +217,12 @@ func noteMaps(ns []Note) []map[string]any {
 	return out
 }
 
-// EventsOf turns one observed run into the events Trace_IOStreams reads.
-func EventsOf(c *Case, obs *Obs) []map[string]any {
+// runEvents turns one observed run into the events Trace_IOStreams reads: its config event (cont: this Execute is made
+// on the Interpreter of the run before it), one step per action, the end event.
+func runEvents(c *Case, obs *Obs, cont bool) []map[string]any {
 	var evs []map[string]any
 	emit := func(m map[string]any) { evs = append(evs, m) }
-	emit(map[string]any{"ev": "reset"})
-	emit(map[string]any{"ev": "step", "act": map[string]any{"op": "config", "cfg": c.Cfg}, "obs": map[string]any{}})
+	emit(map[string]any{"ev": "step", "act": map[string]any{"op": "config", "cfg": c.Cfg, "cont": cont}, "obs": map[string]any{}})
 	// actions whose mark was reached, then the one the run ended in (if any)
 	po, pn := 0, 0
 	done := len(obs.Marks)
@@ -182,7 +233,7 @@ func EventsOf(c *Case, obs *Obs) []map[string]any {
 			// no statement of its own in BEGIN: everything left over belongs to it
 			if a.Op == "operand" && done == k {
 				emit(map[string]any{"ev": "step", "act": actMap(a),
-					"obs": map[string]any{"opens": emptyIfNil(obs.Opens[po:]), "notes": noteMaps(obs.Notes[pn:])}})
+					"obs": map[string]any{"custom": c.Cfg.Custom, "opens": emptyIfNil(obs.Opens[po:]), "notes": noteMaps(obs.Notes[pn:])}})
 				po, pn = len(obs.Opens), len(obs.Notes)
 				last = opName(a)
 			}
@@ -191,7 +242,7 @@ func EventsOf(c *Case, obs *Obs) []map[string]any {
 		if k < done {
 			m := obs.Marks[k]
 			emit(map[string]any{"ev": "step", "act": actMap(a),
-				"obs": map[string]any{"opens": emptyIfNil(obs.Opens[po:m.Opens]), "notes": noteMaps(obs.Notes[pn:m.Notes])}})
+				"obs": map[string]any{"custom": c.Cfg.Custom, "opens": emptyIfNil(obs.Opens[po:m.Opens]), "notes": noteMaps(obs.Notes[pn:m.Notes])}})
 			po, pn = m.Opens, m.Notes
 			last = opName(a)
 			k++
@@ -199,7 +250,7 @@ func EventsOf(c *Case, obs *Obs) []map[string]any {
 		}
 		// the action the run ended in (error, exit): no mark
 		emit(map[string]any{"ev": "step", "act": actMap(a),
-			"obs": map[string]any{"opens": emptyIfNil(obs.Opens[po:]), "notes": noteMaps(obs.Notes[pn:])}})
+			"obs": map[string]any{"custom": c.Cfg.Custom, "opens": emptyIfNil(obs.Opens[po:]), "notes": noteMaps(obs.Notes[pn:])}})
 		po, pn = len(obs.Opens), len(obs.Notes)
 		last = opName(a)
 		break
@@ -210,7 +261,21 @@ func EventsOf(c *Case, obs *Obs) []map[string]any {
 	}
 	emit(map[string]any{"ev": "step", "act": map[string]any{"op": "end", "last": last},
 		"obs": map[string]any{"err": obs.Err != nil || obs.Panic != nil, "starts": emptyIfNil(obs.Starts), "files": files,
-			"extra": emptyIfNil(obs.Extra), "stdout": hx.FromBytes(obs.Stdout), "serr": hx.FromBytes(obs.Stderr)}})
+			"extra": emptyIfNil(obs.Extra), "stdout": hx.FromBytes(obs.Stdout), "serr": hx.FromBytes(obs.Stderr),
+			"stale": emptyIfNil(obs.Stale)}})
+	return evs
+}
+
+// SessionEvents: a reset event, then the events of every run that was made.
+func SessionEvents(runs []RunIn, obs []*Obs) []map[string]any {
+	evs := []map[string]any{{"ev": "reset"}}
+	for k := range runs {
+		if k >= len(obs) {
+			break
+		}
+		c := &Case{Fam: "trace", Cfg: runs[k].Cfg, Acts: runs[k].Acts}
+		evs = append(evs, runEvents(c, obs[k], k > 0)...)
+	}
 	return evs
 }
 
@@ -226,19 +291,49 @@ func record(seed int64, n int, out string, sandbox bool) (int, error) {
 	r := rand.New(rand.NewSource(seed*7919 + 13))
 	defer Cleanup()
 	for t := 0; t < n; t++ {
-		c := genRun(r, sandbox)
-		usesProc := false
-		for _, a := range c.Acts {
-			if isExecAct(a) {
-				usesProc = true
-			}
+		nruns := 1
+		if sandbox && r.Intn(3) == 0 {
+			nruns = 2 + r.Intn(2)
 		}
-		obs, prog := Run(c, RunOpts{Marks: true, Bufio: !usesProc && r.Intn(2) == 0})
+		var runs []RunIn
+		usesProc := false
+		for k := 0; k < nruns; k++ {
+			c := genRun(r, sandbox, k == 0)
+			if nruns > 1 && len(c.Acts) > 4 {
+				// runs of a session are shorter; the ending (if any) is kept
+				lastA := c.Acts[len(c.Acts)-1]
+				c.Acts = c.Acts[:3]
+				switch lastA.Op {
+				case "exit", "rterror":
+					c.Acts = append(c.Acts, lastA)
+				}
+			}
+			for _, a := range c.Acts {
+				if isExecAct(a) {
+					usesProc = true
+				}
+			}
+			runs = append(runs, RunIn{Cfg: c.Cfg, Acts: c.Acts})
+		}
+		wk := ""
+		if !usesProc {
+			wk = pick(r, "", "bufio4096", "bufio16", "bufio3")
+		}
+		obs, prog := RunSession(runs, RunOpts{Marks: true, WKind: wk})
 		if obs == nil {
 			return t, os.ErrInvalid
 		}
 		_ = prog
-		for _, ev := range EventsOf(c, obs) {
+		unsynced := false
+		for _, o := range obs {
+			if o.Unsynced {
+				unsynced = true
+			}
+		}
+		if unsynced {
+			continue // a command did not report in time: nothing can be said about this run
+		}
+		for _, ev := range SessionEvents(runs, obs) {
 			enc.Encode(ev)
 		}
 	}
